@@ -90,6 +90,13 @@ type c15EngCase struct {
 	// TextLang != "": the index has a text index; memories carry a "content" field and the hybrid queries are run.
 	TextLang string      `json:"text_language,omitempty"`
 	Hybrid   []c15Hybrid `json:"hybrid_queries,omitempty"`
+	// Prev != nil: the index name is not fresh. Before the index of this case is built, the same engine
+	// creates an index under the SAME name with the (independently drawn) configuration Prev, loads Prev's
+	// memories (same ids m0, m1 as the first memories of the case, other vectors and metadata), runs the
+	// three searches on it (judged by the same oracle) and drops it. When the case has a control index its
+	// name gets the same previous incarnation. Only Metric, MemCfg, Model, HalfLifeNs, Layers, Mems, Query
+	// and K of Prev are used. The laws must hold with the configuration of the index being searched.
+	Prev *c15EngCase `json:"previous_incarnation,omitempty"`
 }
 
 var c15Words = []string{"zebra", "apple", "river", "stone"}
@@ -179,93 +186,171 @@ func c15ModelOf(cfg *hnsw.MemoryConfig, m c15Mem) string {
 
 // ---------------------------------------------------------------- generator
 
+// c15CfgKinds: weights of the memory-configuration kinds (index 0 is what rapid shrinks towards).
+var c15CfgKinds = []string{"nil", "disabled", "default", "default", "default",
+	"enabled", "enabled", "enabled", "enabled", "enabled", "enabled", "enabled", "enabled", "enabled", "enabled", "enabled", "enabled", "enabled", "enabled", "enabled"}
+
+// c15CfgKindsAfterPrev: the index that follows a previous incarnation more often has no decay at all.
+var c15CfgKindsAfterPrev = []string{"nil", "nil", "nil", "disabled", "disabled", "default", "default", "default",
+	"enabled", "enabled", "enabled", "enabled", "enabled", "enabled", "enabled", "enabled", "enabled", "enabled", "enabled", "enabled"}
+
+// c15GenCfgInto draws the memory configuration of c (labels prefixed with pfx).
+func c15GenCfgInto(t *rapid.T, c *c15EngCase, pfx string, kinds []string) {
+	c.MemCfg = rapid.SampledFrom(kinds).Draw(t, pfx+"cfgKind")
+	if c.MemCfg == "enabled" || c.MemCfg == "disabled" {
+		if rapid.IntRange(0, 5).Draw(t, pfx+"cfgModelKind") == 0 {
+			c.Model = rapid.SampledFrom(c15OddModels).Draw(t, pfx+"cfgModelOdd")
+		} else {
+			c.Model = rapid.SampledFrom(c15KnownModels).Draw(t, pfx+"cfgModel")
+		}
+		c.HalfLifeNs = c15GenHalfLife(t, pfx+"globalHL", false)
+		nl := rapid.SampledFrom([]int{0, 1, 2, 3, 3}).Draw(t, pfx+"nLayers")
+		names := []string{"episodic", "semantic", "procedural", "custom"}
+		for i := 0; i < nl; i++ {
+			name := rapid.SampledFrom(names).Draw(t, pfx+"layerName")
+			dup := false
+			for _, l := range c.Layers {
+				if l.Name == name {
+					dup = true
+				}
+			}
+			if dup {
+				continue
+			}
+			c.Layers = append(c.Layers, c15Layer{Name: name, HalfLifeNs: c15GenHalfLife(t, pfx+"layerHL", true),
+				PinnedByDefault: rapid.IntRange(0, 2).Draw(t, pfx+"layerPinned") == 0})
+		}
+	}
+}
+
+// c15CfgHalfLives: half-lives (seconds) present in a configuration, to aim ages at them.
+func c15CfgHalfLives(cfg *hnsw.MemoryConfig) []float64 {
+	hls := []float64{c15DefaultHalfLifeS}
+	if cfg != nil {
+		if s := time.Duration(cfg.DecayHalfLife).Seconds(); s > 0 {
+			hls = append(hls, s)
+		}
+		var ln []string
+		for n := range cfg.Layers {
+			ln = append(ln, n)
+		}
+		sort.Strings(ln)
+		for _, n := range ln {
+			if s := time.Duration(cfg.Layers[n].DecayHalfLife).Seconds(); s > 0 {
+				hls = append(hls, s)
+			}
+		}
+	}
+	return hls
+}
+
+// c15AgeGen returns the age generator aimed at the half-lives hls.
+func c15AgeGen(t *rapid.T, hls []float64) func(label string, allowFuture bool) float64 {
+	return func(label string, allowFuture bool) float64 {
+		var a float64
+		switch rapid.IntRange(0, 9).Draw(t, label+"Kind") {
+		case 0:
+			if allowFuture {
+				a = rapid.SampledFrom([]float64{-10, -3600, -1e8}).Draw(t, label+"Future")
+			} else {
+				a = 0
+			}
+		case 1:
+			a = rapid.SampledFrom([]float64{0, 1, 30}).Draw(t, label+"Now")
+		case 2, 3:
+			a = rapid.SampledFrom([]float64{3600, 86400, 3 * 86400, 7 * 86400, 30 * 86400, 365 * 86400, 1.5e9}).Draw(t, label+"Abs")
+		default:
+			h := rapid.SampledFrom(hls).Draw(t, label+"HL")
+			r := rapid.SampledFrom([]float64{0.25, 0.5, 1, 1.5, 3, 20}).Draw(t, label+"Ratio")
+			a = h*r + rapid.SampledFrom([]float64{0, 0, -5, 5, 0.5}).Draw(t, label+"Off")
+			if a < 0 {
+				a = 0
+			}
+		}
+		if a > 1.6e9 {
+			a = 1.6e9
+		}
+		return a
+	}
+}
+
+var c15VecComp = []float32{-2, -1, -0.5, 0.5, 1, 2, 3}
+
+func c15GenVec(t *rapid.T, label string) []float32 {
+	return []float32{rapid.SampledFrom(c15VecComp).Draw(t, label+"0"), rapid.SampledFrom(c15VecComp).Draw(t, label+"1"), rapid.SampledFrom(c15VecComp).Draw(t, label+"2")}
+}
+
+var c15LayerNames = []string{"episodic", "semantic", "procedural", "custom", "nosuchlayer", ""}
+
+// c15GenMem draws one memory (labels prefixed with pfx); textLang != "": it may carry a content field.
+func c15GenMem(t *rapid.T, pfx string, genAge func(string, bool) float64, textLang string) c15Mem {
+	m := c15Mem{Vec: c15GenVec(t, pfx+"vec"), TwinOf: -1}
+	if textLang != "" && rapid.IntRange(0, 5).Draw(t, pfx+"hasContent") > 0 {
+		nw := rapid.IntRange(1, 3).Draw(t, pfx+"nWords")
+		var ws []string
+		for j := 0; j < nw; j++ {
+			ws = append(ws, rapid.SampledFrom(c15Words).Draw(t, pfx+"word"))
+		}
+		m.Content = strings.Join(ws, " ")
+	}
+	m.AgeS = genAge(pfx+"age", true)
+	m.CreatedType = rapid.SampledFrom([]string{"float64", "float64", "float64", "float64", "int", "int64", "absent"}).Draw(t, pfx+"createdType")
+	m.Pinned = rapid.SampledFrom([]string{"", "", "", "", "bool:true", "str:true", "bool:false", "str:false"}).Draw(t, pfx+"pinned")
+	if rapid.IntRange(0, 2).Draw(t, pfx+"hasOverride") == 0 {
+		var s string
+		if rapid.IntRange(0, 4).Draw(t, pfx+"overrideOdd") == 0 {
+			s = rapid.SampledFrom(c15OddModels).Draw(t, pfx+"overrideOddName")
+		} else {
+			s = rapid.SampledFrom(c15KnownModels).Draw(t, pfx+"override")
+		}
+		m.Model = &s
+	}
+	if rapid.IntRange(0, 2).Draw(t, pfx+"hasLayer") > 0 {
+		s := rapid.SampledFrom(c15LayerNames).Draw(t, pfx+"layer")
+		m.Layer = &s
+	}
+	m.CountType = rapid.SampledFrom([]string{"absent", "absent", "absent", "float64", "float64", "int", "int64"}).Draw(t, pfx+"countType")
+	if m.CountType != "absent" {
+		m.Count = rapid.SampledFrom([]int{0, 1, 2, 5, 20, 1000, -1, -3}).Draw(t, pfx+"count")
+	}
+	if rapid.IntRange(0, 6).Draw(t, pfx+"hasLast") == 0 {
+		v := genAge(pfx+"lastAge", false)
+		m.LastAgeS = &v
+	}
+	return m
+}
+
+// c15GenPrev draws a previous incarnation of the index name: its own metric,
+// memory configuration, one or two memories and a query.
+func c15GenPrev(t *rapid.T) *c15EngCase {
+	p := &c15EngCase{}
+	p.Metric = rapid.SampledFrom([]string{"euclidean", "euclidean", "cosine"}).Draw(t, "prev:metric")
+	c15GenCfgInto(t, p, "prev:", c15CfgKinds)
+	genAge := c15AgeGen(t, c15CfgHalfLives(c15BuildCfg(*p)))
+	n := rapid.IntRange(1, 2).Draw(t, "prev:nMems")
+	for i := 0; i < n; i++ {
+		m := c15GenMem(t, "prev:", genAge, "")
+		m.ID = c15Sprintf("m%d", i)
+		p.Mems = append(p.Mems, m)
+	}
+	p.Query = c15GenVec(t, "prev:q")
+	p.K = 16
+	return p
+}
+
 func c15GenEng() *rapid.Generator[c15EngCase] {
 	return rapid.Custom(func(t *rapid.T) c15EngCase {
 		var c c15EngCase
+		kinds := c15CfgKinds
+		if rapid.IntRange(0, 9).Draw(t, "hasPrev") >= 7 {
+			c.Prev = c15GenPrev(t)
+			kinds = c15CfgKindsAfterPrev
+		}
 		c.Metric = rapid.SampledFrom([]string{"euclidean", "euclidean", "cosine"}).Draw(t, "metric")
-		switch rapid.IntRange(0, 19).Draw(t, "cfgKind") {
-		case 0:
-			c.MemCfg = "nil"
-		case 1:
-			c.MemCfg = "disabled"
-		case 2, 3, 4:
-			c.MemCfg = "default"
-		default:
-			c.MemCfg = "enabled"
-		}
-		if c.MemCfg == "enabled" || c.MemCfg == "disabled" {
-			if rapid.IntRange(0, 5).Draw(t, "cfgModelKind") == 0 {
-				c.Model = rapid.SampledFrom(c15OddModels).Draw(t, "cfgModelOdd")
-			} else {
-				c.Model = rapid.SampledFrom(c15KnownModels).Draw(t, "cfgModel")
-			}
-			c.HalfLifeNs = c15GenHalfLife(t, "globalHL", false)
-			nl := rapid.SampledFrom([]int{0, 1, 2, 3, 3}).Draw(t, "nLayers")
-			names := []string{"episodic", "semantic", "procedural", "custom"}
-			for i := 0; i < nl; i++ {
-				name := rapid.SampledFrom(names).Draw(t, "layerName")
-				dup := false
-				for _, l := range c.Layers {
-					if l.Name == name {
-						dup = true
-					}
-				}
-				if dup {
-					continue
-				}
-				c.Layers = append(c.Layers, c15Layer{Name: name, HalfLifeNs: c15GenHalfLife(t, "layerHL", true),
-					PinnedByDefault: rapid.IntRange(0, 2).Draw(t, "layerPinned") == 0})
-			}
-		}
+		c15GenCfgInto(t, &c, "", kinds)
 		cfg := c15BuildCfg(c)
-		// half-lives (seconds) present in this configuration, to aim ages at them
-		hls := []float64{c15DefaultHalfLifeS}
-		if cfg != nil {
-			if s := time.Duration(cfg.DecayHalfLife).Seconds(); s > 0 {
-				hls = append(hls, s)
-			}
-			var ln []string
-			for n := range cfg.Layers {
-				ln = append(ln, n)
-			}
-			sort.Strings(ln)
-			for _, n := range ln {
-				if s := time.Duration(cfg.Layers[n].DecayHalfLife).Seconds(); s > 0 {
-					hls = append(hls, s)
-				}
-			}
-		}
-		genAge := func(label string, allowFuture bool) float64 {
-			var a float64
-			switch rapid.IntRange(0, 9).Draw(t, label+"Kind") {
-			case 0:
-				if allowFuture {
-					a = rapid.SampledFrom([]float64{-10, -3600, -1e8}).Draw(t, label+"Future")
-				} else {
-					a = 0
-				}
-			case 1:
-				a = rapid.SampledFrom([]float64{0, 1, 30}).Draw(t, label+"Now")
-			case 2, 3:
-				a = rapid.SampledFrom([]float64{3600, 86400, 3 * 86400, 7 * 86400, 30 * 86400, 365 * 86400, 1.5e9}).Draw(t, label+"Abs")
-			default:
-				h := rapid.SampledFrom(hls).Draw(t, label+"HL")
-				r := rapid.SampledFrom([]float64{0.25, 0.5, 1, 1.5, 3, 20}).Draw(t, label+"Ratio")
-				a = h*r + rapid.SampledFrom([]float64{0, 0, -5, 5, 0.5}).Draw(t, label+"Off")
-				if a < 0 {
-					a = 0
-				}
-			}
-			if a > 1.6e9 {
-				a = 1.6e9
-			}
-			return a
-		}
-		comp := []float32{-2, -1, -0.5, 0.5, 1, 2, 3}
-		genVec := func(label string) []float32 {
-			return []float32{rapid.SampledFrom(comp).Draw(t, label+"0"), rapid.SampledFrom(comp).Draw(t, label+"1"), rapid.SampledFrom(comp).Draw(t, label+"2")}
-		}
-		layerNames := []string{"episodic", "semantic", "procedural", "custom", "nosuchlayer", ""}
+		genAge := c15AgeGen(t, c15CfgHalfLives(cfg))
+		genVec := func(label string) []float32 { return c15GenVec(t, label) }
 		if rapid.IntRange(0, 9).Draw(t, "hasText") >= 6 {
 			c.TextLang = "english"
 		}
@@ -274,39 +359,7 @@ func c15GenEng() *rapid.Generator[c15EngCase] {
 			nBase = rapid.IntRange(1, 6).Draw(t, "nMemsText")
 		}
 		for i := 0; i < nBase; i++ {
-			m := c15Mem{Vec: genVec("vec"), TwinOf: -1}
-			if c.TextLang != "" && rapid.IntRange(0, 5).Draw(t, "hasContent") > 0 {
-				nw := rapid.IntRange(1, 3).Draw(t, "nWords")
-				var ws []string
-				for j := 0; j < nw; j++ {
-					ws = append(ws, rapid.SampledFrom(c15Words).Draw(t, "word"))
-				}
-				m.Content = strings.Join(ws, " ")
-			}
-			m.AgeS = genAge("age", true)
-			m.CreatedType = rapid.SampledFrom([]string{"float64", "float64", "float64", "float64", "int", "int64", "absent"}).Draw(t, "createdType")
-			m.Pinned = rapid.SampledFrom([]string{"", "", "", "", "bool:true", "str:true", "bool:false", "str:false"}).Draw(t, "pinned")
-			if rapid.IntRange(0, 2).Draw(t, "hasOverride") == 0 {
-				var s string
-				if rapid.IntRange(0, 4).Draw(t, "overrideOdd") == 0 {
-					s = rapid.SampledFrom(c15OddModels).Draw(t, "overrideOddName")
-				} else {
-					s = rapid.SampledFrom(c15KnownModels).Draw(t, "override")
-				}
-				m.Model = &s
-			}
-			if rapid.IntRange(0, 2).Draw(t, "hasLayer") > 0 {
-				s := rapid.SampledFrom(layerNames).Draw(t, "layer")
-				m.Layer = &s
-			}
-			m.CountType = rapid.SampledFrom([]string{"absent", "absent", "absent", "float64", "float64", "int", "int64"}).Draw(t, "countType")
-			if m.CountType != "absent" {
-				m.Count = rapid.SampledFrom([]int{0, 1, 2, 5, 20, 1000, -1, -3}).Draw(t, "count")
-			}
-			if rapid.IntRange(0, 6).Draw(t, "hasLast") == 0 {
-				v := genAge("lastAge", false)
-				m.LastAgeS = &v
-			}
+			m := c15GenMem(t, "", genAge, c.TextLang)
 			c.Mems = append(c.Mems, m)
 		}
 		nTwins := rapid.SampledFrom([]int{0, 1, 1, 1, 2, 3}).Draw(t, "nTwins")
@@ -375,10 +428,54 @@ func c15GenEng() *rapid.Generator[c15EngCase] {
 	})
 }
 
+// c15StaticFactor: the stated factor of a memory under a configuration, evaluated
+// at the start of the case (labels and non-triviality only, never the oracle).
+func c15StaticFactor(cfg *hnsw.MemoryConfig, m c15Mem) (float64, bool) {
+	if !c15Enabled(cfg) || c15PinnedOf(cfg, m) {
+		return 1, true
+	}
+	h, decays := c15HalfLifeOf(cfg, c15LayerOf(m))
+	if !decays {
+		return 1, true
+	}
+	age := m.AgeS
+	if m.CreatedType == "absent" {
+		age = 0
+	}
+	if m.LastAgeS != nil && *m.LastAgeS < age {
+		age = *m.LastAgeS
+	}
+	cnt := 0
+	if m.CountType != "absent" {
+		cnt = m.Count
+	}
+	return c15Ref(c15ModelOf(cfg, m), age, h, cnt)
+}
+
+// c15PrevDiffers: some memory of the case has a stated factor under the
+// configuration of the previous incarnation that differs visibly from the one
+// under the configuration of the index it lives in.
+func c15PrevDiffers(c c15EngCase) bool {
+	if c.Prev == nil {
+		return false
+	}
+	cfg, old := c15BuildCfg(c), c15BuildCfg(*c.Prev)
+	for _, m := range c.Mems {
+		a, ok1 := c15StaticFactor(cfg, m)
+		b, ok2 := c15StaticFactor(old, m)
+		if ok1 && ok2 && math.Abs(a-b) > 0.01 {
+			return true
+		}
+	}
+	return false
+}
+
 func c15EngNonTrivial(c c15EngCase) bool {
 	cfg := c15BuildCfg(c)
 	if !c15Enabled(cfg) {
-		return false
+		// "equals 1 when decay is disabled" is only a real question when something could have decayed:
+		// the name carried a decaying index before and a memory is old enough to show it.
+		return c15PrevDiffers(c)
 	}
 	decaying, special := false, len(c.Reinforce) > 0
 	for _, m := range c.Mems {
@@ -399,6 +496,38 @@ func c15EngLabels(c c15EngCase) []string {
 	l := []string{"cfg:" + c.MemCfg}
 	if len(c.Hybrid) > 0 {
 		l = append(l, "hybrid: text index + hybrid queries")
+	}
+	if c.Prev != nil {
+		old := c15BuildCfg(*c.Prev)
+		l = append(l, "prev: index name had a previous incarnation (created, loaded, searched, dropped)")
+		switch {
+		case c15Enabled(old) && !c15Enabled(cfg):
+			l = append(l, "prev: previous incarnation decays, current one has decay off (nil/disabled config)")
+		case !c15Enabled(old) && c15Enabled(cfg):
+			l = append(l, "prev: previous incarnation had decay off, current one decays")
+		case c15Enabled(old) && c15Enabled(cfg):
+			l = append(l, "prev: both incarnations decay")
+			if c15ModelOf(old, c15Mem{}) != c15ModelOf(cfg, c15Mem{}) {
+				l = append(l, "prev: other decay model")
+			}
+			if old.DecayHalfLife != cfg.DecayHalfLife {
+				l = append(l, "prev: other global half-life")
+			}
+			if c15Sprintf("%v", old.Layers) != c15Sprintf("%v", cfg.Layers) {
+				l = append(l, "prev: other layer table")
+			}
+		default:
+			l = append(l, "prev: neither incarnation decays")
+		}
+		if c15PrevDiffers(c) {
+			l = append(l, "prev: some memory's stated factor differs by > 0.01 between the two configurations")
+		}
+		if len(c.Hybrid) > 0 {
+			l = append(l, "prev: control index name had a previous (decaying or not) incarnation too")
+		}
+		if c.Persist != "" {
+			l = append(l, "prev: followed by a restart later in the case")
+		}
 	}
 	if !c15Enabled(cfg) {
 		return l
@@ -983,47 +1112,13 @@ func c15Min(a, b int) int {
 	return b
 }
 
-func c15RunEng(c c15EngCase, stats *c15Stats) (msg string) {
-	defer func() {
-		if p := recover(); p != nil {
-			msg = c15Sprintf("panic: %v", p)
-		}
-	}()
-	if len(c.Mems) == 0 || len(c.Query) == 0 {
-		return ""
-	}
-	dir, cleanup := verifkit.TempDir("c15")
-	defer cleanup()
-	rand.Seed(verifkit.CaseSeed(verifkit.Hash(c)))
-	opts := DefaultOptions(filepath.Join(dir, "data"))
-	opts.AutoSaveInterval = 0
-	opts.AutoSaveThreshold = 0
-	opts.AofRewritePercentage = 0
-	opts.MaintenanceInterval = 1000 * time.Hour
-	e, err := Open(opts)
-	if err != nil {
-		return "HARNESS: Open: " + err.Error()
-	}
-	defer func() { e.Close() }()
-
-	r := &c15Runner{c: c, cfg: c15BuildCfg(c), e: e, byID: map[string]int{}, stats: stats}
-	metric := distance.Euclidean
-	if c.Metric == "cosine" {
-		metric = distance.Cosine
-	}
-	if err := e.VCreate("m", metric, 16, 200, distance.Float32, c.TextLang, nil, nil, c15BuildCfg(c)); err != nil {
-		return "HARNESS: VCreate: " + err.Error()
-	}
-	control := c.TextLang != "" && len(c.Hybrid) > 0
-	if !control {
-		r.c.Hybrid = nil
-	} else if err := e.VCreate("c", metric, 16, 200, distance.Float32, c.TextLang, nil, nil, nil); err != nil {
-		return "HARNESS: VCreate (control): " + err.Error()
-	}
-	var metas []map[string]any
-
+// load adds the memories of the case to index "m" and sets up the model state;
+// keepMetas: also return a copy of every metadata map as sent (for a second index).
+func (r *c15Runner) load(keepMetas bool) (metas []map[string]any, msg string) {
+	c, e := r.c, r.e
 	base := float64(time.Now().Unix())
 	r.st = make([]c15State, len(c.Mems))
+	r.byID = map[string]int{}
 	for i, m := range c.Mems {
 		r.byID[m.ID] = i
 		meta := map[string]any{"tag": "c15"}
@@ -1073,7 +1168,7 @@ func c15RunEng(c c15EngCase, stats *c15Stats) (msg string) {
 			st.hasLast, st.last = true, base-*m.LastAgeS
 			meta["_last_accessed"] = st.last
 		}
-		if control {
+		if keepMetas {
 			cp := map[string]any{}
 			for k, v := range meta {
 				cp[k] = v
@@ -1082,21 +1177,123 @@ func c15RunEng(c c15EngCase, stats *c15Stats) (msg string) {
 		}
 		a0 := time.Now().Unix()
 		if err := e.VAdd("m", m.ID, append([]float32{}, m.Vec...), meta); err != nil {
-			return "HARNESS: VAdd: " + err.Error()
+			return nil, "HARNESS: VAdd: " + err.Error()
 		}
 		a1 := time.Now().Unix()
 		if m.CreatedType == "absent" && c15Enabled(r.cfg) {
 			d, err := e.VGet("m", m.ID)
 			if err != nil {
-				return "HARNESS: VGet: " + err.Error()
+				return nil, "HARNESS: VGet: " + err.Error()
 			}
 			v, ok := c15Num(d.Metadata["_created_at"])
 			if !ok || v < float64(a0) || v > float64(a1) {
-				return c15Sprintf("HARNESS: injected _created_at of %s = %v, not within the VAdd bracket [%d,%d]", m.ID, d.Metadata["_created_at"], a0, a1)
+				return nil, c15Sprintf("HARNESS: injected _created_at of %s = %v, not within the VAdd bracket [%d,%d]", m.ID, d.Metadata["_created_at"], a0, a1)
 			}
 			st.created = v // adopt the observed timestamp
 		}
 		r.st[i] = st
+	}
+	return metas, ""
+}
+
+// c15PreviousIncarnation gives the index name "m" (and the control name "c" when
+// the case uses one) a past: an index of that name with the configuration and the
+// memories of p is created, searched through the three search calls (name "m":
+// judged like any other index; name "c": not judged) and dropped.
+func c15PreviousIncarnation(e *Engine, p c15EngCase, control bool, stats *c15Stats) string {
+	p.Prev, p.TextLang, p.Hybrid, p.Reinforce, p.Persist = nil, "", nil, nil, ""
+	if len(p.Mems) == 0 || len(p.Query) == 0 {
+		return ""
+	}
+	metric := distance.Euclidean
+	if p.Metric == "cosine" {
+		metric = distance.Cosine
+	}
+	if err := e.VCreate("m", metric, 16, 200, distance.Float32, "", nil, nil, c15BuildCfg(p)); err != nil {
+		return "HARNESS: VCreate (previous incarnation): " + err.Error()
+	}
+	r := &c15Runner{c: p, cfg: c15BuildCfg(p), e: e, byID: map[string]int{}, stats: stats}
+	metas, msg := r.load(control)
+	if msg != "" {
+		return msg
+	}
+	if msg := r.search("previous incarnation of the index name"); msg != "" {
+		return msg
+	}
+	if err := e.VDeleteIndex("m"); err != nil {
+		return "HARNESS: VDeleteIndex (previous incarnation): " + err.Error()
+	}
+	if control {
+		if err := e.VCreate("c", metric, 16, 200, distance.Float32, "", nil, nil, c15BuildCfg(p)); err != nil {
+			return "HARNESS: VCreate (previous incarnation of the control): " + err.Error()
+		}
+		for i, m := range p.Mems {
+			if err := e.VAdd("c", m.ID, append([]float32{}, m.Vec...), metas[i]); err != nil {
+				return "HARNESS: VAdd (previous incarnation of the control): " + err.Error()
+			}
+		}
+		if _, err := e.VSearchWithScores("c", p.Query, p.K); err != nil {
+			return "HARNESS: VSearchWithScores (previous incarnation of the control): " + err.Error()
+		}
+		if _, err := e.VSearchGraph("c", p.Query, p.K, "", "", 0, 1.0, nil, false, nil); err != nil {
+			return "HARNESS: VSearchGraph (previous incarnation of the control): " + err.Error()
+		}
+		if _, err := e.VSearch("c", p.Query, p.K, "", "", 0, 1.0, nil); err != nil {
+			return "HARNESS: VSearch (previous incarnation of the control): " + err.Error()
+		}
+		if err := e.VDeleteIndex("c"); err != nil {
+			return "HARNESS: VDeleteIndex (previous incarnation of the control): " + err.Error()
+		}
+	}
+	return ""
+}
+
+func c15RunEng(c c15EngCase, stats *c15Stats) (msg string) {
+	defer func() {
+		if p := recover(); p != nil {
+			msg = c15Sprintf("panic: %v", p)
+		}
+	}()
+	if len(c.Mems) == 0 || len(c.Query) == 0 {
+		return ""
+	}
+	dir, cleanup := verifkit.TempDir("c15")
+	defer cleanup()
+	rand.Seed(verifkit.CaseSeed(verifkit.Hash(c)))
+	opts := DefaultOptions(filepath.Join(dir, "data"))
+	opts.AutoSaveInterval = 0
+	opts.AutoSaveThreshold = 0
+	opts.AofRewritePercentage = 0
+	opts.MaintenanceInterval = 1000 * time.Hour
+	e, err := Open(opts)
+	if err != nil {
+		return "HARNESS: Open: " + err.Error()
+	}
+	defer func() { e.Close() }()
+
+	control := c.TextLang != "" && len(c.Hybrid) > 0
+	if c.Prev != nil {
+		if msg := c15PreviousIncarnation(e, *c.Prev, control, stats); msg != "" {
+			return msg
+		}
+		rand.Seed(verifkit.CaseSeed(verifkit.Hash(c))) // the index of the case gets the level draws it would get on a fresh name
+	}
+	r := &c15Runner{c: c, cfg: c15BuildCfg(c), e: e, byID: map[string]int{}, stats: stats}
+	metric := distance.Euclidean
+	if c.Metric == "cosine" {
+		metric = distance.Cosine
+	}
+	if err := e.VCreate("m", metric, 16, 200, distance.Float32, c.TextLang, nil, nil, c15BuildCfg(c)); err != nil {
+		return "HARNESS: VCreate: " + err.Error()
+	}
+	if !control {
+		r.c.Hybrid = nil
+	} else if err := e.VCreate("c", metric, 16, 200, distance.Float32, c.TextLang, nil, nil, nil); err != nil {
+		return "HARNESS: VCreate (control): " + err.Error()
+	}
+	metas, msg := r.load(control)
+	if msg != "" {
+		return msg
 	}
 	if control {
 		// the control index: same memories, same metadata, same HNSW level draws, no memory configuration
@@ -1197,7 +1394,7 @@ func c15RunEng(c c15EngCase, stats *c15Stats) (msg string) {
 
 func TestVerif_C15_engine(t *testing.T) {
 	c15Silence()
-	col := verifkit.New("C15", "engine", "rapid-generated memory index (memory config nil/disabled/default/custom: decay model known/unknown/empty, global + 0-3 layer half-lives from 0/1ns..1y, pinned-by-default layers) with 1-8 memories (vector, _created_at past/now/future/injected as float64/int/int64, _pinned bool/string, _decay_model override, memory_layer, _access_count typed, initial _last_accessed, twins) and 0-4 VReinforce calls; decay factor / score / order checked through VSearchWithScores, VSearchGraph and VSearch before and after every reinforce call, counters through VGet; in about 40% of the cases the index has an English text index, the memories carry a 'content' field of 0-3 words and 1-2 hybrid queries (text query or CONTAINS filter, alpha 0..1, k 1..16) are run in every phase against the memory index and a decay-free control index holding the same memories: score = control score * stated factor for vector-leg and text-leg-only hits, order, top-k selection, twin ordering; non-trivial = decay enabled, at least one unpinned memory with a past explicit timestamp in a decaying layer AND at least one of: pinned memory, no-decay layer, future timestamp, twin pair, reinforce call")
+	col := verifkit.New("C15", "engine", "rapid-generated memory index (memory config nil/disabled/default/custom: decay model known/unknown/empty, global + 0-3 layer half-lives from 0/1ns..1y, pinned-by-default layers) with 1-8 memories (vector, _created_at past/now/future/injected as float64/int/int64, _pinned bool/string, _decay_model override, memory_layer, _access_count typed, initial _last_accessed, twins) and 0-4 VReinforce calls; decay factor / score / order checked through VSearchWithScores, VSearchGraph and VSearch before and after every reinforce call, counters through VGet; in about 40% of the cases the index has an English text index, the memories carry a 'content' field of 0-3 words and 1-2 hybrid queries (text query or CONTAINS filter, alpha 0..1, k 1..16) are run in every phase against the memory index and a decay-free control index holding the same memories: score = control score * stated factor for vector-leg and text-leg-only hits, order, top-k selection, twin ordering; in about 30% of the cases the index name (and the control name) is not fresh: the same engine first holds an index of that name with another, independently drawn metric / memory configuration and 1-2 memories with the same ids, searches it through the three calls (judged too) and drops it, and the index of the case then has decay off more often (nil/disabled 25%); non-trivial = decay enabled, at least one unpinned memory with a past explicit timestamp in a decaying layer AND at least one of: pinned memory, no-decay layer, future timestamp, twin pair, reinforce call; OR decay off after a previous incarnation under whose configuration some memory of the case would have a visibly different factor")
 	defer col.Finish()
 	stats := &c15Stats{}
 	if p := verifkit.ReplayPath(); p != "" {
